@@ -1,0 +1,41 @@
+//go:build verif
+
+package lock
+
+// Machine-checked contracts (comment-only; compiled only with -tags verif).
+//
+// Monitor invariant of queue.mu -- it IS the safety part of the property:
+//   head_ready    a non-empty queue has a woken head  (no waiter is left blocked once holders are gone)
+//   tail_waiting  nobody but the head has been woken  (at most one holder at any time)
+//   none_done     queued callers have not been dismissed
+//   distinct      queued callers are distinct objects with pairwise distinct channels
+// FIFO is the critical-section postcondition of remove (order of the others preserved)
+// and of enqueue (append at the tail).
+
+//@ type queue
+//@   guarded_by mu: callers
+//@   lockinv mu [nonnil] forall i in 0..len(self.callers): self.callers[i] != nil && self.callers[i].ready != nil && self.callers[i].done != nil
+//@   lockinv mu [distinct] forall i in 0..len(self.callers): forall j in 0..len(self.callers): i != j ==> self.callers[i] != self.callers[j] && self.callers[i].ready != self.callers[j].ready && self.callers[i].done != self.callers[j].done
+//@   lockinv mu [chans_disjoint] forall i in 0..len(self.callers): forall j in 0..len(self.callers): self.callers[i].ready != self.callers[j].done
+//@   lockinv mu [head_ready] len(self.callers) > 0 ==> closed(self.callers[0].ready)
+//@   lockinv mu [tail_waiting] forall i in 1..len(self.callers): !closed(self.callers[i].ready)
+//@   lockinv mu [none_done] forall i in 0..len(self.callers): !closed(self.callers[i].done)
+
+//@ func (*queue).enqueue(q, c)
+//@   property C14
+//@   nopanic
+//@   requires[caller_ok] c != nil && c.ready != nil && c.done != nil && c.ready != c.done
+//@   requires[caller_open] !closed(c.ready) && !closed(c.done)
+//@   rely[caller_is_private] forall i in 0..len(q.callers): q.callers[i] != c && q.callers[i].ready != c.ready && q.callers[i].done != c.done && q.callers[i].ready != c.done && q.callers[i].done != c.ready
+//@   modifies *
+//@   csensures[appended_at_tail] len(q.callers) == old(len(q.callers)) + 1 && q.callers[len(q.callers)-1] == c && forall i in 0..old(len(q.callers)): q.callers[i] == old(q.callers[i])
+//@   csensures[woken_only_if_first] old(len(q.callers)) > 0 ==> !closed(c.ready)
+
+//@ func (*queue).remove(q, id) (found)
+//@   property C14
+//@   nopanic
+//@   modifies *
+//@   loop 0 invariant[scanned] forall k in 0..rangeindex+1: q.callers[k].id != id
+//@   csensures[absent_id_changes_nothing] !found ==> len(q.callers) == old(len(q.callers)) && forall i in 0..len(q.callers): q.callers[i] == old(q.callers[i])
+//@   csensures[absent_means_absent] !found ==> forall i in 0..len(q.callers): q.callers[i].id != id
+//@   csensures[removes_one_keeps_order] found ==> len(q.callers) == old(len(q.callers)) - 1 && exists k in 0..old(len(q.callers)): old(q.callers[k].id) == id && closed(old(q.callers[k]).done) && (forall i in 0..k: q.callers[i] == old(q.callers[i])) && (forall i in k..len(q.callers): q.callers[i] == old(q.callers[i+1]))
